@@ -1013,7 +1013,7 @@ int _vnadata_load_npd(vnadata_internal_t *vdip, FILE *fp, const char *filename)
 		    break;
 
 		case VNADATA_FORMAT_PRL:
-		    value = v1 / (1.0 - I * v1 / (2.0 * M_PI * f * v2));
+		    value = 1.0 / CMPLX(1.0 / v1, -1.0 / (2.0 * M_PI * f * v2));
 		    break;
 
 		case VNADATA_FORMAT_SRC:
